@@ -217,6 +217,58 @@ class VhRow:
         self.id, self.status, self.fields = id, status, fields
 
 
+MEMCHECK_RE = None
+
+
+def run_vh_memcheck(mode, lines, workdir, cwd=None, timeout=1800, env=None, extra=()):
+    """Run `vh MODE` over the case lines under valgrind memcheck (plain release build; leak checking off). Returns
+    (results dict as run_vh, report dict): report = {"errors": n, "kinds": {...}, "crashed": bool, "first": text}.
+    A crash/abort of the process is what the properties forbid; memcheck *reports* without a crash are advisory."""
+    import re
+    import tempfile as _tf
+    wd = _tf.mkdtemp(prefix="vhm-", dir=workdir)
+    try:
+        cf = os.path.join(wd, "cases.tsv")
+        of = os.path.join(wd, "out.tsv")
+        lf = os.path.join(wd, "memcheck.log")
+        with open(cf, "w") as f:
+            f.write("\n".join(lines) + "\n")
+        cmd = ["valgrind", "--tool=memcheck", "--quiet", "--leak-check=no", "--error-limit=no", "--num-callers=12", "--log-file=" + lf,
+               VH, mode, cf, of] + list(extra)
+        rc, out, err, to = run_cmd(cmd, cwd=cwd, timeout=timeout, env=env)
+        results = {}
+        try:
+            with open(of) as f:
+                for r in f.read().split("\n"):
+                    if r:
+                        fs = r.split("\t")
+                        results[fs[0]] = fs[1:]
+        except FileNotFoundError:
+            pass
+        try:
+            with open(lf, errors="replace") as f:
+                log = f.read()
+        except FileNotFoundError:
+            log = ""
+        kinds = collections.Counter()
+        for m in re.finditer(r"==\d+== (Invalid (?:read|write|free)[^\n]*|Conditional jump or move depends on uninitialised[^\n]*|"
+                             r"Use of uninitialised[^\n]*|Mismatched free[^\n]*|Source and destination overlap[^\n]*|Process terminating[^\n]*)", log):
+            kinds[m.group(1)[:60]] += 1
+        crashed = (not to) and (rc != 0 or len(results) < len(lines))
+        rep = {"errors": sum(v for k, v in kinds.items() if not k.startswith("Process terminating")), "kinds": dict(kinds), "crashed": crashed,
+               "timed_out": to, "rc": rc, "cases": len(lines), "answered": len(results), "first": log[:1500]}
+        return results, rep
+    finally:
+        shutil.rmtree(wd, ignore_errors=True)
+
+
+def memcheck_available():
+    try:
+        return subprocess.run(["valgrind", "--version"], capture_output=True, timeout=20).returncode == 0
+    except Exception:
+        return False
+
+
 def run_vh(mode, lines, workdir, extra=(), cwd=None, per_case_timeout=20.0, batch_timeout=None, env=None):
     """Run `vh MODE` over case lines (each starting with a unique id field).
     Returns dict id -> list of output fields (after the id). A case on which the harness hung is
